@@ -323,8 +323,22 @@ def corpus_jobs():
         for n in sorted(os.listdir(cdir)):
             if n.endswith(".json"):
                 w = json.load(open(os.path.join(cdir, n)))
+                if "rounds" in w:
+                    continue           # reuse histories: see corpus_reuse
                 jobs.append(("corpus:" + n, {"files": w["files"], "config": w.get("config", {})}, w["mode"]))
     return jobs
+
+
+def corpus_reuse():
+    out = [("kf:" + e["id"], e["witness"]["rounds"], e["witness"]["mode"]) for e in vlib.load_known_findings("C02") if "rounds" in e["witness"]]
+    cdir = os.path.join(vlib.VERIF, "corpus", "C02")
+    if os.path.isdir(cdir):
+        for n in sorted(os.listdir(cdir)):
+            if n.endswith(".json"):
+                w = json.load(open(os.path.join(cdir, n)))
+                if "rounds" in w:
+                    out.append(("corpus:" + n, w["rounds"], w["mode"]))
+    return [(label, [{"files": r["files"], "config": r.get("config", {})} for r in rounds], mode) for label, rounds, mode in out]
 
 
 def both(pairs):
@@ -348,9 +362,7 @@ def run(rep):
     rep.add("layout", evaluate(both(G.layout_cases())))
     rep.add("names", evaluate(both(G.special_name_cases())))
     rep.add("derives", evaluate(both(G.derive_spelling_cases())))
-    kf_reuse = [("kf:" + e["id"], [{"files": r["files"], "config": r.get("config", {})} for r in e["witness"]["rounds"]], e["witness"]["mode"])
-                for e in vlib.load_known_findings("C02") if "rounds" in e["witness"]]
-    for label, rounds, mode in kf_reuse:
+    for label, rounds, mode in corpus_reuse():
         rep.add("corpus", evaluate_reuse([(label, rounds)], modes=(mode,)), sample_count=1)
     rep.add("reuse", evaluate_reuse(G.reuse_histories(rng, 6 if rep.tier == "quick" else 60)))
     hp = G.history_pairs(rng, 60 if rep.tier == "quick" else 600)
